@@ -104,6 +104,8 @@ type Obs struct {
 	// PanVals: the values raised by BehPanic hooks, by hook name (B0, ACT1, A2)
 	PanVals map[string]*PanicValue
 	Ran     int
+	// Final: the recorders' content when Run ended (also on rejection / exit), per node id; recording mode only
+	Final map[int]Binding
 }
 
 // EventStr joins the events
@@ -121,7 +123,20 @@ func Quiet() {
 	cli.VerifSetStdOut(io.Writer(lockedDiscard{}))
 }
 
-func envName(id, i int) string { return fmt.Sprintf("VPE_%d_%d", id, i) }
+func envName(id, i int, o *OptDecl) string {
+	if o.Flag {
+		return fmt.Sprintf("VPE_%d_%d_F", id, i)
+	}
+	return fmt.Sprintf("VPE_%d_%d_V", id, i)
+}
+
+// PresetEnv sets, once and for all, every variable a Shared run of a single-command app may refer to
+func PresetEnv(maxOpts int) {
+	for i := 0; i < maxOpts; i++ {
+		os.Setenv(envName(0, i, &OptDecl{Flag: true}), "true")
+		os.Setenv(envName(0, i, &OptDecl{}), "envval")
+	}
+}
 
 // EnvValue is the value of a set environment variable backing an option
 func EnvValue(o *OptDecl) string {
@@ -184,6 +199,7 @@ func Run(a *App, argv []string) *Obs {
 			app.Version("V version", "ver-1.2.3")
 		}
 		all := map[int]*recs{}
+		defer func() { o.Final = finalBind(all) }()
 		var build func(c *cli.Cmd, t *Cmd)
 		build = func(c *cli.Cmd, t *Cmd) {
 			rs := &recs{o: map[*OptDecl]*Rec{}, a: map[*ArgDecl]*Rec{}, sbo: map[*OptDecl]*bool{}, sba: map[*ArgDecl]*bool{}, bo: map[*OptDecl]func() []string{}, ba: map[*ArgDecl]func() []string{}}
@@ -191,7 +207,7 @@ func Run(a *App, argv []string) *Obs {
 			for i, od := range t.Prog.Opts {
 				env := ""
 				if od.EnvSet {
-					env = envName(t.ID, i)
+					env = envName(t.ID, i, od)
 					if !a.Shared {
 						os.Setenv(env, EnvValue(od))
 						setEnv = append(setEnv, env)
@@ -202,6 +218,12 @@ func Run(a *App, argv []string) *Obs {
 				name := strings.Join(od.Names, " ")
 				if a.Builtin {
 					switch {
+					case od.Int && od.Multi:
+						p := c.Ints(cli.IntsOpt{Name: name, EnvVar: env, SetByUser: sb})
+						rs.bo[od] = func() []string { return intsStr(*p) }
+					case od.Int:
+						p := c.Int(cli.IntOpt{Name: name, EnvVar: env, SetByUser: sb})
+						rs.bo[od] = func() []string { return []string{fmt.Sprint(*p)} }
 					case od.Flag:
 						p := c.Bool(cli.BoolOpt{Name: name, EnvVar: env, SetByUser: sb})
 						rs.bo[od] = func() []string { return []string{fmt.Sprint(*p)} }
@@ -221,6 +243,11 @@ func Run(a *App, argv []string) *Obs {
 			for _, ad := range t.Prog.Args {
 				sb := new(bool)
 				rs.sba[ad] = sb
+				if a.Builtin && ad.Int {
+					p := c.Ints(cli.IntsArg{Name: ad.Name, SetByUser: sb})
+					rs.ba[ad] = func() []string { return intsStr(*p) }
+					continue
+				}
 				if a.Builtin {
 					p := c.Strings(cli.StringsArg{Name: ad.Name, SetByUser: sb})
 					rs.ba[ad] = func() []string { return append([]string{}, *p...) }
@@ -315,6 +342,33 @@ func (o *Obs) snapshot(a *App, all map[int]*recs) {
 		o.Bind[tid] = b
 		o.SetBy[tid] = sb
 	}
+}
+
+func finalBind(all map[int]*recs) map[int]Binding {
+	res := map[int]Binding{}
+	for tid, rr := range all {
+		b := Binding{Opts: map[*OptDecl][]string{}, Args: map[*ArgDecl][]string{}}
+		for od, rc := range rr.o {
+			if rc.Clears > 0 && len(rc.Vals) > 0 {
+				b.Opts[od] = append([]string{}, rc.Vals...)
+			}
+		}
+		for ad, rc := range rr.a {
+			if rc.Clears > 0 && len(rc.Vals) > 0 {
+				b.Args[ad] = append([]string{}, rc.Vals...)
+			}
+		}
+		res[tid] = b
+	}
+	return res
+}
+
+func intsStr(v []int) []string {
+	var r []string
+	for _, x := range v {
+		r = append(r, fmt.Sprint(x))
+	}
+	return r
 }
 
 // Accepted: the Action of the single command ran once and Run returned nil
